@@ -237,6 +237,31 @@ def run_hash(spec, res):
                                 "than the Java client would", key=k, parts=parts[:20], n=n, got=got_p, want=want_part)
                 res.ob("partition_equals_java")
         first[qi] = want_part
+    # several partitioners alive at once (one per topic, each always given its own list), the same keys on each
+    lists = []
+    for _ in range(4):
+        lp = gen_parts(rng)
+        if lp:
+            lists.append(lp)
+    insts = [P.HashedPartitioner("topic%d" % i, list(lp)) for i, lp in enumerate(lists)]
+    shared_keys = [q[0] for q in queries[:40]]
+    for rnd in range(2):
+        for k in shared_keys:
+            want_h = py_murmur2(k)
+            for inst, lp in zip(insts, lists):
+                try:
+                    got_p = inst.partition(k, list(lp))
+                except Exception as e:
+                    res.violate("partition-raised/several-instances/%s" % type(e).__name__, "partition() raised %r" % (e,),
+                                key=k, parts=lp[:12])
+                    continue
+                want_part = lp[(want_h & 0x7FFFFFFF) % len(lp)]
+                if got_p != want_part:
+                    res.violate("hashed-differs-from-java/several-instances", "with several HashedPartitioner objects "
+                                "alive, one chose %r for a key whose Java partition in its own list is %r" % (got_p, want_part),
+                                key=k, parts=lp[:12])
+                res.ob("partition_equals_java")
+                res.hit("several_instances_selections")
     # history independence: replay a sample in another order on a used instance
     order = list(range(len(queries)))
     rng.shuffle(order)
@@ -316,7 +341,12 @@ def run_rr(spec, res):
                         cur = (list(parts), [])
                         changes += 1
                         hist.append(("change", list(parts)))
-                got = rr.partition(rng.choice((None, b"k", b"")), list(parts))
+                try:
+                    got = rr.partition(rng.choice((None, b"k", b"")), list(parts))
+                except Exception as e:
+                    res.violate("rr-raised/%s" % type(e).__name__, "RoundRobinPartitioner.partition() raised %r after the "
+                                "list changed to %r" % (e, parts[:12]), history=hist[-4:])
+                    break
                 cur[1].append(got)
             runs.append(cur)
             res.hit("rr_histories")
